@@ -3,6 +3,7 @@ package dsim
 import (
 	"bytes"
 	"fmt"
+	"io"
 	"net"
 	"sync"
 
@@ -24,11 +25,12 @@ func init() {
 		Scenarios: []*Scenario{
 			{Name: "concurrent", Weight: 5, Bubble: true, Run: c07Concurrent},
 			{Name: "retry", Weight: 4, Run: c07Retry},
+			{Name: "concurrent-sctp", Weight: 2, Bubble: true, Run: c07Sctp},
 			{Name: "retry-conn", Weight: 2, Bubble: true, Run: c07RetryConn},
 			{Name: "sweep-retry", Run: c07Sweep, SweepN: c07SweepN, QuickSweep: true, Exhaustive: true,
 				SweepNote: "every sequence of up to 3 outcomes over {accept 0, 1, half, all} x {temporary, permanent, plain error} (then success), x retry budgets 0..3 x {io.Writer, MultistreamWriter}: 15 080 cases"},
 		},
-		MustProbes: []string{"writer-blocked-on-lock", "stall-with-queued-writers", "retry-resumed"},
+		MustProbes: []string{"writer-blocked-on-lock", "stall-with-queued-writers", "retry-resumed", "sctp-concurrent-writes", "sctp-write-stall"},
 	})
 }
 
@@ -658,4 +660,199 @@ func c07RetryConn(e *Env) {
 	if len(script) > 0 {
 		e.NonTrivial()
 	}
+}
+
+// ---------------------------------------------------------------- concurrent writers on an SCTP association
+
+// c07Sctp: writer tasks on a connection over a multistream association (the path
+// that bypasses the buffered writer and, for WriteStream, the write lock).
+func c07Sctp(e *Env) {
+	t := e.T
+	e.maxStep = 150
+	be := newSimSCTP(e)
+	msc := diam.NewVerifSCTPConn(be)
+	defer diam.VerifSCTPRelease(msc)
+	conn, err := diam.NewConn(msc.(net.Conn), "sim", diam.NewServeMux(), simDict())
+	if err != nil {
+		e.Harness("NewConn: %v", err)
+	}
+	be.SetTag(-1)
+	nw := t.Range(1, 5)
+	var mu sync.Mutex
+	type sop struct {
+		w, s     int
+		stream   uint
+		api      string
+		want     []byte
+		msg      *diam.Message
+		inv, ret uint64
+		err      error
+		done     bool
+	}
+	type stask struct {
+		ops  []*sop
+		next int
+		gate chan struct{}
+		idle bool
+		busy bool
+	}
+	tasks := make([]*stask, nw)
+	for i := range tasks {
+		tk := &stask{gate: make(chan struct{})}
+		for s, n := 0, t.Range(1, 4); s < n; s++ {
+			size := []int{0, 100, 1000, 1030, 3000}[t.Draw(5)]
+			payload := marker(i, s, 24+size, byte(9*i+s))
+			hbh, e2e := uint32(100*i+s+1), uint32(5000+100*i+s)
+			op := &sop{w: i, s: s, stream: uint(t.Draw(16)), api: []string{"stream", "stream", "plain"}[t.Draw(3)]}
+			op.want = RefMsg{Cmd: 900, Flags: 0x80, HbH: hbh, E2E: e2e, AVPs: []RefAVP{{Code: avpSimOctets, Data: payload}}}.Bytes()
+			op.msg = diam.NewMessage(900, diam.RequestFlag, 0, hbh, e2e, simDict())
+			op.msg.NewAVP(avpSimOctets, 0, 0, datatype.OctetString(payload))
+			tk.ops = append(tk.ops, op)
+		}
+		tasks[i] = tk
+		go func(tk *stask) {
+			for _, op := range tk.ops {
+				mu.Lock()
+				tk.idle = true
+				e.ParkBegin(false)
+				mu.Unlock()
+				<-tk.gate
+				op.inv = e.Seq()
+				if op.api == "stream" {
+					_, op.err = op.msg.WriteToStream(conn, op.stream)
+				} else {
+					_, op.err = op.msg.WriteTo(conn) // no stream: the association's default
+				}
+				op.ret = e.Seq()
+				mu.Lock()
+				op.done = true
+				tk.busy = false
+				mu.Unlock()
+			}
+		}(tk)
+	}
+	e.Quiesce()
+	start := func(tk *stask) {
+		mu.Lock()
+		op := tk.ops[tk.next]
+		tk.next++
+		tk.idle, tk.busy = false, true
+		e.ParkEnd(false)
+		mu.Unlock()
+		e.Act("start", "w%d/m%d %s", op.w, op.s, op.api)
+		tk.gate <- struct{}{}
+	}
+	stalled := false
+	for e.Step() {
+		var idle []*stask
+		mu.Lock()
+		busy := 0
+		for _, tk := range tasks {
+			if tk.idle && tk.next < len(tk.ops) {
+				idle = append(idle, tk)
+			}
+			if tk.busy {
+				busy++
+			}
+		}
+		mu.Unlock()
+		if len(idle) == 0 && !stalled {
+			break
+		}
+		switch {
+		case stalled && (len(idle) == 0 || t.Chance(1, 3)):
+			be.Resume()
+			stalled = false
+			e.Act("resume", "")
+		case !stalled && t.Chance(1, 4):
+			be.ArmWriteFault(&WriteFault{Kind: "stall"})
+			start(idle[t.Draw(len(idle))])
+			stalled = true
+		default:
+			start(idle[t.Draw(len(idle))])
+		}
+		e.Quiesce()
+		if busy >= 1 {
+			e.NonTrivial()
+		}
+	}
+	for r := 0; r < 60; r++ {
+		be.Resume()
+		mu.Lock()
+		var idle []*stask
+		for _, tk := range tasks {
+			if tk.idle && tk.next < len(tk.ops) {
+				idle = append(idle, tk)
+			}
+		}
+		mu.Unlock()
+		for _, tk := range idle {
+			start(tk)
+		}
+		e.Quiesce()
+		if len(idle) == 0 {
+			break
+		}
+	}
+	defer func() { be.End(io.EOF); e.Quiesce() }()
+	be.mu.Lock()
+	ws := append([]sctpWrite{}, be.writes...)
+	be.mu.Unlock()
+	pos := map[[2]int]int{}
+	for i, wr := range ws {
+		rm, err := refParse(wr.data)
+		if err != nil || len(rm.AVPs) == 0 {
+			e.Fail("C07/garbled-message/sctp", "SCTP write #%d is not a whole message: %v", i, err)
+			return
+		}
+		w, s, ok := parseMarker(rm.AVPs[0].Data)
+		if !ok || w >= len(tasks) || s >= len(tasks[w].ops) {
+			e.Fail("C07/garbled-message/sctp", "SCTP write #%d carries no valid writer marker", i)
+			return
+		}
+		op := tasks[w].ops[s]
+		if !bytes.Equal(wr.data, op.want) {
+			e.Fail("C07/interleaved-or-corrupt/sctp", "SCTP write #%d (writer %d seq %d) differs from what that writer wrote", i, w, s)
+			return
+		}
+		if _, dup := pos[[2]int{w, s}]; dup {
+			e.Fail("C07/duplicate-message/sctp", "writer %d message %d was written twice", w, s)
+			return
+		}
+		pos[[2]int{w, s}] = i
+		if op.api == "stream" && uint(wr.stream) != op.stream {
+			e.Fail("C07/wrong-stream/sctp", "writer %d message %d was asked for stream %d and written to stream %d", w, s, op.stream, wr.stream)
+			return
+		}
+	}
+	for _, tk := range tasks {
+		for _, a := range tk.ops {
+			if !a.done {
+				e.Fail("C07/write-never-returned/sctp", "writer %d message %d never returned", a.w, a.s)
+				return
+			}
+			pa, ok := pos[[2]int{a.w, a.s}]
+			if a.err == nil && !ok {
+				e.Fail("C07/lost-message/sctp", "writer %d message %d: success reported, nothing written", a.w, a.s)
+				return
+			}
+			for _, tk2 := range tasks {
+				for _, b := range tk2.ops {
+					pb, okb := pos[[2]int{b.w, b.s}]
+					if !ok || !okb || a == b {
+						continue
+					}
+					if a.w == b.w && a.s < b.s && pa > pb {
+						e.Fail("C07/writer-order/sctp", "writer %d: message %d written after message %d", a.w, a.s, b.s)
+						return
+					}
+					if a.ret != 0 && b.inv != 0 && a.ret < b.inv && pa > pb {
+						e.Fail("C07/realtime-order/sctp", "w%d/m%d returned before w%d/m%d was invoked but was written after it", a.w, a.s, b.w, b.s)
+						return
+					}
+				}
+			}
+		}
+	}
+	e.Probe("sctp-concurrent-writes")
 }
